@@ -370,11 +370,12 @@ Inductive case :=
   (* full pipeline, nested delegation tld. -> a.tld. -> s.a.tld. whose referral carries a partly glue-less NS
      set: per-level NS TTLs (s), number of provisional entries filed, bracket of an optional warm-up tree
      (tld. and a.tld. cached beforehand), the main tree's bracket split at the nameserver address lookup
-     ([t0,h0] before it reached the child's server, [h1,t1] after), whether the lookup aborted the descent;
+     ([t0,h0] before it reached the child's server, [h1,t1] after), whether the client's request was cancelled
+     during the lookup and whether that aborted the descent (the cancellation may come too late for that);
      observed: stored delegation expiries (tld., a.tld., s.a.tld.), the answer's and the nameserver address's
      entries; then after a.tld. withdrew s.a.tld.: instant of the next query, whether it got the parent's
      NXDOMAIN, whether the former child was asked *)
-| CaseNest (ttl_tld ttl_a ttl_s : Z) (nprov : nat) (warm : option (Z * Z)) (t0 h0 h1 t1 : Z) (aborted : bool)
+| CaseNest (ttl_tld ttl_a ttl_s : Z) (nprov : nat) (warm : option (Z * Z)) (t0 h0 h1 t1 : Z) (cancelled aborted : bool)
            (delegs : list (option Z)) (ans nsaddr : option (Z * Z * option Z)) (t4 : Z) (nx child_asked : bool)
   (* full pipeline against the scripted world *)
 | CaseLab (zone_srv : list (zone * N)) (trees : list ltree).
@@ -496,7 +497,7 @@ Definition check_case (c : case) : bool :=
       (if (match deleg_exp hi z with Some e => e <=? t4 | None => true end)
        then zone_eqb (m_zone (search_cache (st_dc hi) t4 q false)) [] && negb child_asked
        else true)
-  | CaseNest ttl_tld ttl_a ttl_s nprov warm t0 h0 h1 t1 aborted delegs ans nsaddr t4 nx child_asked =>
+  | CaseNest ttl_tld ttl_a ttl_s nprov warm t0 h0 h1 t1 cancelled aborted delegs ans nsaddr t4 nx child_asked =>
       let lo := nest_run false ttl_tld ttl_a ttl_s nprov warm t0 h0 h1 t1 aborted in
       let hi := nest_run true ttl_tld ttl_a ttl_s nprov warm t0 h0 h1 t1 aborted in
       (* the address sub-query is resolved through the provisional entry, whose lifetime (the tree's deadline,
@@ -505,7 +506,7 @@ Definition check_case (c : case) : bool :=
       let entry_ok (x : option (Z * Z * option Z)) :=
         match x with
         | Some (s, t, c) => between t0 s t1 && (t =? admit_ttl nest_ans_ttl) && obetween (ecut lo t0) c (ecut hi h0)
-        | None => false
+        | None => cancelled   (* a cancelled request admits what it got as far as it got *)
         end in
       match delegs with
       | [dt; da; dz] =>
@@ -644,7 +645,7 @@ Definition spec_case (c : case) : bool :=
       match deleg with Some e => e <=? bound | None => true end &&
       forallb (fun e => match e with Some x => entry_end x <=? bound | None => true end) entries &&
       (if bound <=? t4 then nx && negb child_asked else true)
-  | CaseNest ttl_tld ttl_a ttl_s nprov warm t0 h0 h1 t1 aborted delegs ans nsaddr t4 nx child_asked =>
+  | CaseNest ttl_tld ttl_a ttl_s nprov warm t0 h0 h1 t1 cancelled aborted delegs ans nsaddr t4 nx child_asked =>
       (* the lease per level: observed (no later than the end of the bracket it was seen in) + min(NS TTL, 12 h),
          limited by every shallower one; nothing stored for a zone, and nothing learned through s.a.tld.
          (the answer, its nameserver's address), outlives it - provisional entries included; once it has run
